@@ -1257,7 +1257,14 @@ impl Gen {
 
     /// A filter argument for an opaque template
     fn oarg(&mut self) -> String {
-        match self.r.below(12) {
+        match self.r.below(19) {
+            12 => "empty".into(),
+            13 => "error".into(),
+            14 => "(.a | select(. > 5))".into(),
+            15 => "-1".into(),
+            16 => "-2".into(),
+            17 => "(.b | error)".into(),
+            18 => ".b".into(),
             0 => ".".into(),
             1 => ".a".into(),
             2 => ".[0]".into(),
@@ -1337,7 +1344,7 @@ pub const OPAQUE_BUILTINS: &[&str] = &[
     "match(@@)", "capture(@@)", "sub(@@; @@)", "gsub(@@; @@)", "scan(@@)", "splits(@@)", "split(@@; @@)", "ascii", "@text", "@json",
     "@csv", "@tsv", "@html", "@uri", "@sh", "@base64", "@base64d", "@base32", "@base32d", "combinations", "combinations(@@)",
     "trunc", "toboolean", "skip(@@; @@)", "splits(@@; @@)", "getpath(@@) = @@", ".a = @@", ".[0] |= @@", ".a += @@", ".[] -= @@",
-    ".a *= @@", ".a /= @@", ".a %= @@", ".a //= @@", ".[1:] ", ".[:1]", ".[@@:@@]", ".[1:2] = @@", "del(.[0], .a?)", "to_entries[]",
+    ".a *= @@", ".a /= @@", ".a %= @@", ".a //= @@", ".[1:] ", ".[:1]", ".[@@:@@]", ".a[@@:@@]", ".[@@:]", ".[:@@]", ".a[@@:]", ".a[:@@]", ".[0][@@:@@]", ".a[@@:@@]?", ".[@@:@@] = @@", ".[1:2] = @@", "del(.[0], .a?)", "to_entries[]",
     "..", "[..]", ".. | numbers", "values", "nulls", "booleans", "numbers", "strings", "arrays", "objects", "iterables", "scalars",
     "\"x\\(@@)y\"", "@json \"v=\\(@@)\"", "@base64 \"\\(@@)\"", ". as [$a, $b] | [$b, $a]", ". as {a: $x} | $x", ". as {$a} | $a",
     ". as [$a] ?// $a | [$a]", "reduce .[]? as [$a,$b] (0; . + $a)", "foreach .[]? as $x (0; . + 1; [$x, .])", "def f: . + 1; f?",
